@@ -112,6 +112,9 @@ def run_kani_group(ctx, group):
     hs, bt = kanirun.build_group(hdir, target, os.path.join(logdir, "_build.log"), kargs)
     sel = select(hs, ctx.prop, ctx.tier, ctx.only)
     if not sel:
+        if ctx.only:
+            log("[%s] %s: no harness matches --only %s (group skipped)" % (ctx.prop, group, ctx.only))
+            return hdir
         raise Inconclusive("no harness of group %s selected for %s/%s" % (group, ctx.prop, ctx.tier))
     # longest first
     order = pcfg.get("slow_first", [])
@@ -308,7 +311,7 @@ def run_property(prop, tier, seed, keep=False, only=None):
             except Exception as e:
                 errors.append("internal error: %s\n%s" % (e, traceback.format_exc()))
 
-        for unit in cfg.get("smt", []):
+        for unit in ([] if (only and not os.environ.get("VERIF_SMT_WITH_ONLY")) else cfg.get("smt", [])):
             th = threading.Thread(target=guarded, args=(unit, ctx))
             th.start()
             threads.append(th)
